@@ -34,13 +34,14 @@ KINDS = {
     19: 'supply accounting: totalSupply != locally issued + minted for bindings, or != sum of balances',
     20: 'success receive: the receiver was not credited exactly the delivered amount',
     21: 'getAckStatus disagrees with the outcome of the packet',
-    22: 'a transfer was accepted with a sequence other than the next one',
+    22: 'a packet was sent with a sequence other than the next one',
+    24: 'an error acknowledgement was written but the callback sent a packet on',
 }
 for _k in (16, 17, 18, 19, 21):
     KINDS[100 + _k] = 'initial state of the history: ' + KINDS[_k]
 
 HOLDERS = {100: 'Endpoint', 101: 'PacketC', 102: 'Execute', 103: 'Agent', 104: 'Relayer'}
-CDS = {0: 'CdNone', 2: 'CdRevert', 3: 'CdHookFail', 4: 'CdOnwardUnknown'}
+CDS = {0: 'CdNone', 2: 'CdRevert', 3: 'CdHookFail'}
 
 
 def N(x):
@@ -62,10 +63,15 @@ def nat(x):
 def op_term(o):
     k = o['k']
     if k == 'T':
-        cd = '(CdOk %s)' % nat(o['e']) if o['cd'] == 1 else CDS[o['cd']]
+        if o['cd'] == 1:
+            cd = '(CdOk %s)' % nat(o['e'])
+        elif o['cd'] in (4, 5):  # agent.send (4: to a chain without client, parameters filled in by the harness)
+            cd = '(CdAgent %s %s %s %s)' % (nat(o['aref']), holder_opt(o['arcv']), nat(o['adst']), N(o['afee'] or 0))
+        else:
+            cd = CDS[o['cd']]
         return '(Transfer %s %s %s %s %s %s %s %s %s %s)' % (
             nat(o['c']), nat(o['u']), nat(o['tok']), N(o['amt']), nat(o['dst']), holder_opt(o['rcv']), cd,
-            'CbBroken' if o['cb'] else 'CbNone', nat(o['ftok']), N(o['fee']))
+            'true' if o['cb'] else 'false', nat(o['ftok']), N(o['fee']))
     if k == 'R':
         return '(Recv %s %s %s)' % (nat(o['src']), nat(o['dst']), N(o['seq']))
     if k == 'A':
@@ -73,6 +79,16 @@ def op_term(o):
     if k == 'F':
         return '(AddFee %s %s %s %s %s)' % (nat(o['c']), nat(o['u']), nat(o['dst']), N(o['seq']), N(o['amt']))
     raise ValueError(k)
+
+
+def onward_term(w):
+    if not w:
+        return 'None'
+    return ('(Some {| p_src := %s; p_dst := %s; p_seq := %s; p_sender := Agent; p_recv := %s; p_token := %s; p_ori := %s; '
+            'p_amount := %s; p_cd := CdNone; p_cb := CbAgent %s; p_status := Sent; p_code := 0; p_delivered := 0; '
+            'p_refunded := 0; p_feepaid := 0 |})' % (
+                nat(w['src']), nat(w['dst']), N(w['seq']), holder_opt(w['rcv']), nat(w['tok']),
+                'None' if w['ori'] < 0 else '(Some %s)' % nat(w['ori']), N(w['amt']), nat(w['ref'])))
 
 
 def nlist(xs):
@@ -90,8 +106,9 @@ def hist_term(r):
     U = '{| u_n := %s; u_users := %s; u_ntok := %s |}' % (nat(s['nchains']), nat(s['nusers']), coq_list([nat(x) for x in s['ntok']]))
     binds = coq_list(['(%s, %s, %s, %s, %s)' % (nat(b['c']), nat(b['loc']), nat(b['src']), nat(b['ori']), N(10 ** int(b.get('scale', 0))))
                       for b in (s.get('binds') or [])])
-    steps = coq_list(['{| os_op := %s; os_class := %s; os_code := %s; os_obs := %s |}' % (
-        op_term(st['op']), nat(st['class']), N(st['code']), coq_list([cobs_term(o) for o in st['obs']])) for st in (r['steps'] or [])])
+    steps = coq_list(['{| os_op := %s; os_class := %s; os_code := %s; os_onward := %s; os_obs := %s |}' % (
+        op_term(st['op']), nat(st['class']), N(st['code']), onward_term(st.get('onward')),
+        coq_list([cobs_term(o) for o in st['obs']])) for st in (r['steps'] or [])])
     return '{| h_u := %s; h_binds := %s; h_init := %s; h_steps := %s |}' % (
         U, binds, coq_list([cobs_term(o) for o in r['init']]), steps)
 
@@ -223,7 +240,7 @@ def coverage(run, results, mm, ff):
             dist['%s_%s' % ({'T': 'transfer', 'R': 'recv', 'A': 'ack', 'F': 'addfee'}[k], acc)] += 1
             if k == 'T' and st['class'] == 0:
                 sent[(o['c'], o['dst'], st['op']['seq'])] = o
-                dist['transfer_cd_%s' % {0: 'none', 1: 'ok', 2: 'revert', 3: 'hookfail', 4: 'onward_unknown'}[o['cd']]] += 1
+                dist['transfer_cd_%s' % {0: 'none', 1: 'ok', 2: 'revert', 3: 'hookfail', 4: 'onward_unknown', 5: 'agent_multihop'}[o['cd']]] += 1
                 dist['transfer_%s' % ('native' if o['tok'] == 0 else 'erc20')] += 1
                 if int(o['fee']) > 0:
                     dist['transfer_with_fee'] += 1
@@ -237,6 +254,10 @@ def coverage(run, results, mm, ff):
                     dist['transfer_broken_callback'] += 1
             if k == 'R' and st['class'] == 0:
                 dist['recv_code_%d' % st['code']] += 1
+                if st.get('onward'):
+                    dist['recv_sending_a_packet_on'] += 1
+                    sent[(st['onward']['src'], st['onward']['dst'], st['onward']['seq'])] = dict(tok=st['onward']['tok'], amt=st['onward']['amt'], cd=0, rcv=st['onward']['rcv'], fee='agent')
+                    dist['onward_%s' % ('return_path' if st['onward']['ori'] >= 0 else 'forward_path')] += 1
             if k in 'RA' and st['class'] == 0:
                 t = sent.get((o['src'], o['dst'], o['seq']))
                 nontrivial.add(json.dumps([k, st['code'], t and [t['tok'], t['amt'], t['cd'], t['rcv'], t['fee']], o['src'], o['dst']]))
